@@ -153,7 +153,7 @@ Qed.
 Lemma src_step st l : Src st -> Src (step n st l).
 Proof.
   intros HS. unfold step. apply (src_ext (step0 n st l)); try reflexivity.
-  destruct l as [i v|i|i|]; cbn [step0].
+  destruct l as [i v|i|i| |]; cbn [step0]; [| | | |apply (src_ext st); auto].
   - destruct (th st i) eqn:Ht; try exact HS. unfold invoke. plain HS Ht.
   - destruct (th st i) eqn:Ht; try exact HS. unfold invoke. plain HS Ht.
   - now apply src_tstep.
@@ -205,7 +205,7 @@ Qed.
 
 Theorem cyc_mono st l j : Inv n st -> cyc (ring st j) <= cyc (ring (step n st l) j).
 Proof.
-  intros HI. unfold step. cbn [tick ring]. destruct l as [i v|i|i|]; cbn [step0].
+  intros HI. unfold step. cbn [tick ring]. destruct l as [i v|i|i| |]; cbn [step0]; [| | | |cbn; lia].
   - destruct (th st i); cbn; lia.
   - destruct (th st i); cbn; lia.
   - now apply cyc_mono_tstep.
